@@ -175,6 +175,17 @@ def main():
     if a.json:
         with open(a.json, 'w') as f:
             json.dump(results, f, indent=1)
+    if not getattr(a, 'only', None) and len(muts) > 100:
+        # a full run: keep its summary next to the code (DESIGN 11.6 refers to it)
+        head = os.popen('git -C %s log --oneline -1' % VERIF).read().strip()
+        with open(os.path.join(VERIF, 'selftest', 'LAST_RUN.txt'), 'w') as f:
+            f.write('selftest/run.py (full run) on the working tree after /verif commit %s\n' % head)
+            f.write('%d mutants (%d reported), %d benign variants (%d silent)\n' % (
+                len(muts), sum(1 for r in results if r['kind'] == 'mutant' and r.get('ok')),
+                len(ben), sum(1 for r in results if r['kind'] == 'benign' and r.get('ok'))))
+            for r in sorted(results, key=lambda x: x['id']):
+                if not r.get('ok'):
+                    f.write('NOT OK %s %s\n' % (r['id'], r['kind']))
     return 1 if bad else 0
 
 
